@@ -1,16 +1,16 @@
 SPECIFICATION Spec
 CONSTANTS
-  Tx <- TxS
-  TxDef <- TxDefS
+  Tx <- TxR
+  TxDef <- TxDefR
   Ord <- OrdU
   Asset <- AssetU
   Cap <- CapU
   Genesis <- GenesisU
   Info0 <- InfoU
   None <- NoneV
-  Known <- KnownAll
+  Known <- Known2
 VIEW View
-CONSTRAINT Bound
+CONSTRAINT BoundR
 INVARIANT C17Holds
 INVARIANT Consistent
 PROPERTY C16Prop
